@@ -295,6 +295,7 @@ namespace pika::ensure_started_detail {
                 os.reset();
 
                 predecessor_done = true;
+                PIKA_VERIF_POINT("ss.done.flag", this, 0, 0);
 
                 {
                     // We require taking the lock here to synchronize with
@@ -331,6 +332,7 @@ namespace pika::ensure_started_detail {
                     // continuations to the vector.
                     std::lock_guard<mutex_type> l{mtx};
                 }
+                PIKA_VERIF_POINT("ss.done.locked", this, 0, 0);
 
                 if (continuation)
                 {
@@ -360,6 +362,7 @@ namespace pika::ensure_started_detail {
                     // If predecessor_done is false, we have to take the
                     // lock to potentially store the continuation.
                     std::unique_lock<mutex_type> l{mtx};
+                    PIKA_VERIF_POINT("ss.add.locked", this, 0, 0);
 
                     if (predecessor_done)
                     {
